@@ -245,8 +245,10 @@ inductive ExErr where
   | unknownAlgo          -- errUnknownAlgo
 deriving DecidableEq, Repr
 
-/-- Everything the environment contributes to one TLS key exchange. -/
+/-- Everything the environment contributes to one key exchange (over TLS, or over QUIC on
+    SCION when `quic` is set). -/
 structure Exchange where
+  quic : Bool := false          -- Fetcher.QUIC.Enabled
   dialOk : Bool                 -- connection + handshake succeeded
   host : List Byte              -- host part of conn.RemoteAddr()
   alpn : String                 -- state.NegotiatedProtocol
@@ -256,15 +258,19 @@ structure Exchange where
   s2c : List Byte               -- exporter output for the S2C context
 deriving Repr
 
-/-- dialTLS: default server = key-exchange host, default port = standard NTP port. -/
-def dialData (e : Exchange) : Data := { server := e.host, port := ntpPortIP }
+/-- dialTLS / dialQUIC: default server = key-exchange host, default port = standard NTP port
+    (123 over IP, 10123 over SCION). -/
+def dialData (e : Exchange) : Data :=
+  { server := e.host, port := if e.quic then ntpPortSCION else ntpPortIP }
 
-/-- The part of `exchangeKeys` (TLS branch) that computes the new data. -/
-def exchangeCore (e : Exchange) : Data × Option ExErr :=
+/-- The part of `exchangeKeys` that computes the new data, starting from `d0`. The ALPN
+    result is checked by dialTLS only; over QUIC the TLS stack itself refuses a handshake
+    without the offered protocol (then `dialOk = false`). -/
+def exchangeCoreFrom (d0 : Data) (e : Exchange) : Data × Option ExErr :=
   if !e.dialOk then ({}, some .dial)
-  else if e.alpn ≠ alpnProto then ({}, some .noNtske)
+  else if e.quic = false ∧ e.alpn ≠ alpnProto then ({}, some .noNtske)
   else
-    match readData e.stream (dialData e) with
+    match readData e.stream d0 with
     | (d, some err) => (d, some (.read err))
     | (d, none) =>
       if !e.exportOk then (d, some .export_)
@@ -274,14 +280,20 @@ def exchangeCore (e : Exchange) : Data × Option ExErr :=
         else if d.algo ≠ aesSivCmac256 then (d, some .unknownAlgo)
         else (d, none)
 
+def exchangeCore (e : Exchange) : Data × Option ExErr := exchangeCoreFrom (dialData e) e
+
+/-- Unrepaired QUIC branch (F18): `conn, _, err := dialQUIC(…)` discarded the defaults that
+    dialQUIC had computed, so the exchange started from the zero value. -/
+def exchangeCoreQUICOld (e : Exchange) : Data × Option ExErr := exchangeCoreFrom {} e
+
 /-- Fetcher.exchangeKeys (repaired): the cached data is assigned only on success. -/
 def exchangeKeys (cached : Data) (e : Exchange) : Data × Option ExErr :=
   match exchangeCore e with
   | (d, none) => (d, none)
   | (_, some err) => (cached, some err)
 
-/-- Fetcher.exchangeKeys (unrepaired, F8): `ReadData` and `ExportKeys` wrote straight into
-    the cached data, so a failing exchange left whatever had been filled in so far. -/
+/-- Fetcher.exchangeKeys (unrepaired TLS branch, F8): `ReadData` and `ExportKeys` wrote
+    straight into the cached data, so a failing exchange left whatever had been filled in. -/
 def exchangeKeysOld (_cached : Data) (e : Exchange) : Data × Option ExErr :=
   if !e.dialOk then ({}, some .dial)
   else if e.alpn ≠ alpnProto then ({}, some .noNtske)
